@@ -441,7 +441,7 @@ End TokenizerInst.
    (LIMIT a, b); anything else fails at the cursor with a code that carries the location currentLocation() gives *)
 Definition PS_demo (v : pview) (p : nat) : sres nat :=
   if (nth p (v_tokens v) 0 =? 5) && (v_dialect v =? 1) then SOk 42 (p + 4)
-  else SErr (1000 + 100 * fst (loc_at (v_positions v) p) + snd (loc_at (v_positions v) p)) p.
+  else SErr (N.of_nat (1000 + 100 * fst (loc_at (v_positions v) p) + snd (loc_at (v_positions v) p))) p.
 Definition demo_in (toks : list tok) (poss : list loc) (opts : list popt) : pin := mkIn toks poss 0 false opts.
 Definition psem_d (D : dflags) := psem D PS_demo (fun _ => false) (fun v => length (v_tokens v)).
 
